@@ -33,7 +33,10 @@ func (w *World) join(f *World, buf *bytes.Buffer) {
 }
 
 // SharedRun performs one concurrent phase.
-func SharedRun(w *World, rng *rand.Rand, ty string, ch, roFrames, wFrames, R, W, opsPer, procs int) {
+// mode 0: the read-only window is a plain Slice; mode 1: it was extended by AppendSample after it was sliced (its
+// header changed after construction and nothing has looked at it since); mode 2: as 1 but its last frame is left
+// partly filled (ragged), with the reader operations that are defined on a ragged buffer.
+func SharedRun(w *World, rng *rand.Rand, ty string, ch, roFrames, wFrames, R, W, opsPer, procs, mode int) {
 	old := runtime.GOMAXPROCS(procs)
 	defer runtime.GOMAXPROCS(old)
 	w.Reset()
@@ -44,7 +47,20 @@ func SharedRun(w *World, rng *rand.Rand, ty string, ch, roFrames, wFrames, R, W,
 	defer func() { w.NoObs = false }()
 	total := roFrames + W*wFrames
 	root := w.filledRoot(ty, ch, total)
-	w.Slice(root, 0, roFrames)
+	ragged := false
+	if mode == 0 || roFrames < 2 {
+		w.Slice(root, 0, roFrames)
+	} else {
+		w.Slice(root, 0, roFrames-1)
+		n := ch
+		if mode == 2 && ch > 1 {
+			n = 1 + rng.Intn(ch-1)
+			ragged = true
+		}
+		for k := 0; k < n; k++ {
+			w.AppendSample(len(w.Views)-1, w.NextStamp())
+		}
+	}
 	ro := len(w.Views) - 1
 	wins := make([]int, W)
 	for i := 0; i < W; i++ {
@@ -67,11 +83,15 @@ func SharedRun(w *World, rng *rand.Rand, ty string, ch, roFrames, wFrames, R, W,
 	}
 	wsrc := make([]int, W)
 	for i := range wsrc {
-		wsrc[i] = w.filledRoot(kt, ch, wFrames)
+		wsrc[i] = w.filledRoot(kt, ch, wFrames+2) // longer than the window: only the window's length may be written
 	}
 	// channel views are taken (and cached) before the concurrent phase
 	for c := 0; c < ch; c++ {
-		w.ChanShape(ro, c)
+		if mode == 0 {
+			w.ChanShape(ro, c)
+		} else { // in modes 1 and 2 nothing may look at the shared window before the goroutines do: only take the view
+			w.Views[ro].ChanNew(c)
+		}
 		for _, wi := range wins {
 			w.ChanShape(wi, c)
 		}
@@ -98,7 +118,25 @@ func SharedRun(w *World, rng *rand.Rand, ty string, ch, roFrames, wFrames, R, W,
 			r := rand.New(rand.NewSource(seeds[g]))
 			<-start
 			for k := 0; k < opsPer; k++ {
-				if g < R {
+				if g < R && ragged {
+					l := f.Views[ro].Len()
+					fr := (l + ch - 1) / ch // frames incl. the partly filled one
+					switch r.Intn(5) {
+					case 0:
+						f.Sample(ro, r.Intn(l))
+					case 1:
+						f.Read(ro, kt, r.Intn(l+2))
+					case 2: // a slice that ends on the partly filled frame (within capacity)
+						a := r.Intn(fr + 1)
+						if f.Slice(ro, a, fr) == "ok" {
+							f.Drop(len(f.Views) - 1)
+						}
+					case 3:
+						f.ChanShape(ro, r.Intn(ch))
+					case 4:
+						f.Read(ro, BuiltinTypes[r.Intn(len(BuiltinTypes))], l)
+					}
+				} else if g < R {
 					l := f.Views[ro].Len()
 					switch r.Intn(9) {
 					case 0:
@@ -123,11 +161,21 @@ func SharedRun(w *World, rng *rand.Rand, ty string, ch, roFrames, wFrames, R, W,
 							f.Drop(nv)
 						}
 					case 4:
-						f.ChanSample(ro, r.Intn(ch), r.Intn(roFrames))
+						if mode == 0 {
+							f.ChanSample(ro, r.Intn(ch), r.Intn(roFrames))
+						} else {
+							f.ReadStriped(ro, kt, make([]int, ch), make([]bool, ch))
+						}
 					case 5:
-						f.ChanShape(ro, r.Intn(ch))
+						if mode == 0 {
+							f.ChanShape(ro, r.Intn(ch))
+						} else {
+							f.Read(ro, kt, 0)
+						}
 					case 6:
-						f.ChanIndex(ro, r.Intn(ch), r.Intn(roFrames), 0)
+						if mode == 0 {
+							f.ChanIndex(ro, r.Intn(ch), r.Intn(roFrames), 0)
+						}
 					case 7:
 						if convFn != "" && ty == kt {
 							f.Convert(convFn, ro, rdst[g])
@@ -195,7 +243,7 @@ func driveShared(s *shardSet, rng *rand.Rand, thorough bool) ([]string, map[stri
 			R, W = 8, 8 // 16 goroutines
 		}
 		procs := []int{1, 2, 4, 16}[i%4]
-		SharedRun(s.Next(), rng, ty, ch, 1+rng.Intn(4), 1+rng.Intn(3), R, W, ops, procs)
+		SharedRun(s.Next(), rng, ty, ch, 1+rng.Intn(4), 1+rng.Intn(3), R, W, ops, procs, i%3)
 		extra["goroutines_max"] = 16
 		extra["concurrent_phases"]++
 	}
